@@ -539,7 +539,7 @@ class Gen:
             # E13: private fn made crate-visible (each function is emitted in its own module)
             k0 = it.st_lo
             while st[k0].text == "#": k0 = rs.match_close(st, k0 + 1) + 1
-            sp.insert(st[k0].start, ADD("E13", "pub(crate) "))
+            sp.insert(st[k0].start, ADD("E13", "pub "))
         cls = d.clauses
         # E20: contracts refer to parameters by position. specs/PARAMS.json records the parameter names each contract was written
         # against; if a parameter has since been renamed in /repo (e.g. `block` -> `_block`), the recorded name is substituted by
